@@ -243,6 +243,10 @@ def nx_obligations(unit_name, desc, tier, cres, prop=None):
         msg = r.get('message', '')
         m = re.search(r'OB (\S+?):', msg)
         ob = m.group(1).split('/', 1)[-1] if m else t['obligations'][0]
+        if not mine(ob) and '\n failing cases (' in msg:
+            # a collect-all test fails only in its final assertion: every call it makes has returned, this property's clauses
+            # in it (returns / terminates) were evaluated to the end
+            continue
         if not mine(ob):
             undecided.append('%s: the stand-in stopped at obligation `%s`, which belongs to %s; the clauses of %s in this test were not evaluated to the end'
                              % (t['name'], ob, '/'.join(ob_props.get(ob, ['another property'])), prop))
